@@ -1,6 +1,6 @@
 (* C11 — concurrent transactions never cross: replies reach only the request they answer.
    Property theorems only; model Bac.Ssm / Bac.SsmWorld, proofs in Bac.SsmFacts / Bac.SsmC11. *)
-From Bac Require Import Base PyRt Ssm SsmFacts SsmC04a SsmC11 SsmWorld.
+From Bac Require Import Base PyRt Ssm SsmFacts SsmC04a SsmC11 SsmC11s SsmWorld.
 Open Scope Z_scope.
 
 (* the id handed out is used by no live transaction to that peer, and it is an octet *)
@@ -37,14 +37,46 @@ Print Assumptions C11_stray_client_pdu_ignored.
 
 (* one that does match is applied to exactly that transaction (equal peer and id): only that entry of that node's client
    table is replaced or removed; its server table and every other node stay as they were *)
-Theorem C11_rx_touches_only_match_partial : forall src dst a w n i t,
+Theorem C11_rx_touches_only_match_client : forall src dst a w n i t,
   to_client_side a = true -> get_node dst (w_nodes w) = Some n -> c_raw (n_cfg n) = false ->
   find_tr (a_invoke a) src (n_ctr n) O = Some (i, t) ->
   s_peer t = src /\ s_invoke t = a_invoke a /\
   exists l', w_nodes (deliver src dst a w) = put_node (mkN (n_cfg n) (n_next n) l' (n_str n)) (w_nodes w) /\
              ((exists t', l' = replace_nth i t' (n_ctr n)) \/ l' = remove_nth i (n_ctr n)).
 Proof. exact deliver_reply_only_match. Qed.
-Print Assumptions C11_rx_touches_only_match_partial.
+Print Assumptions C11_rx_touches_only_match_client.
+
+(* the serving side: a request (first frame, retransmission or further segment), a client's segment-ack or a client's abort
+   changes only the server transaction with the sender's address and the PDU's invoke id — created, replaced or removed,
+   also by the application's answer given inside the same step.  Every other entry of that server table (`others`), the
+   client table and configuration of that node, and every other node are exactly as before.  ctx_ok (the context a
+   transaction reassembles carries the transaction's own invoke id) is an invariant: C11_ctx_ok_* below. *)
+Theorem C11_rx_touches_only_match : forall src dst a w n,
+  to_client_side a = false -> (a_type a = 0 \/ a_type a = 4 \/ a_type a = 7) ->
+  get_node dst (w_nodes w) = Some n ->
+  (forall t, In t (n_str n) -> ctx_ok t) ->
+  node_ok_after (a_invoke a) src dst w (deliver src dst a w).
+Proof. exact deliver_server_only_match. Qed.
+Print Assumptions C11_rx_touches_only_match.
+
+Theorem C11_answer_touches_only_match : forall j w, node_ok_after (j_invoke j) (j_to j) (j_node j) w (respond j w).
+Proof. exact respond_ok. Qed.
+Print Assumptions C11_answer_touches_only_match.
+
+Theorem C11_ctx_ok_new : forall c peer client, ctx_ok (new_ssm c peer client).
+Proof. exact ctx_ok_new. Qed.
+Print Assumptions C11_ctx_ok_new.
+
+Theorem C11_ctx_ok_frame : forall a st, ctx_ok (h_s st) ->
+  (s_state (h_s st) = IDLE /\ s_ctx (h_s st) = None) \/ (s_state (h_s st) <> IDLE /\ s_invoke (h_s st) = a_invoke a) ->
+  ctx_ok (h_s (fst (s_indication a st))).
+Proof. exact s_indication_ctx_ok. Qed.
+Print Assumptions C11_ctx_ok_frame.
+
+Theorem C11_ctx_ok_answer : forall x st, ctx_ok (h_s st) -> a_invoke x = s_invoke (h_s st) ->
+  ctx_ok (h_s (fst (s_confirmation x st))).
+Proof. exact s_confirmation_ctx_ok. Qed.
+Print Assumptions C11_ctx_ok_answer.
 
 Theorem C11_other_nodes_untouched : forall n ns addr, addr <> c_addr (n_cfg n) -> get_node addr (put_node n ns) = get_node addr ns.
 Proof. exact get_put_other. Qed.
@@ -68,6 +100,11 @@ Example C11_alloc_example :
   fst (get_next_invoke_id 255 5 [set_invoke_f 255 (new_ssm (mkNode 1 50 3 64 3 3000 1500 2 3000 false []) 5 true);
                                  set_invoke_f 0 (new_ssm (mkNode 1 50 3 64 3 3000 1500 2 3000 false []) 5 true)]) = Ok 1.
 Proof. vm_compute. reflexivity. Qed.
+Example C11_server_side_example :
+  let w := init_world [mkNode 1 50 3 64 3 3000 1500 2 3000 false []; mkNode 2 50 3 64 3 3000 1500 2 3000 false []] [] [] (-1) [] in
+  exists n, get_node 2 (w_nodes w) = Some n /\ (forall t, In t (n_str n) -> ctx_ok t) /\
+            to_client_side (mk_creq false false true (-1) (-1) 0 0 7 12 [1]) = false.
+Proof. eexists. vm_compute. repeat split. intros t []. Qed.
 Example C11_reply_kinds : forallb to_client_side [mk_sack 1 12; mk_cack false false 0 0 1 12 []; mk_error 1 12 []; mk_reject 1 3;
                                                  mk_abort true 1 4; mk_segack false true 1 0 2] = true.
 Proof. vm_compute. reflexivity. Qed.
